@@ -113,14 +113,14 @@ def build_indep_package(d, names, grid, filt_names, wavs):
         c.write(os.path.join(d, 'convolved', fn + '.fits'))
 
 
-def make_fitter(d, filt_names, law, ulo, uhi, distance_range=None, apertures=None, use_memmap=False):
+def make_fitter(d, filt_names, law, ulo, uhi, distance_range=None, apertures=None, use_memmap=False, distance_unit='kpc'):
     from astropy import units as u
     from sedfitter.fit import Fitter
     ap = apertures if apertures is not None else [3.0] * len(filt_names)
     dr = distance_range if distance_range is not None else [1.0, 2.0]
     with quiet():
         return Fitter(list(filt_names), np.array(ap) * u.arcsec, d, extinction_law=law,
-                      av_range=(ulo / 4.0, uhi / 4.0), distance_range=np.array(dr) * u.kpc,
+                      av_range=(ulo / 4.0, uhi / 4.0), distance_range=(np.array(dr) * u.kpc).to(getattr(u, distance_unit)),
                       use_memmap=use_memmap)
 
 
